@@ -351,6 +351,36 @@ func swapPickOK(gc *GCNF, A, B *Term) []string {
 			}
 		}
 	}
+	// the walk ends when both elements are picked; unless one round can pick both, equal indices leave the second one
+	// unpicked for ever (the walk runs off the end): every path into the loop must know i != j
+	both := false
+	for _, g := range gc.GCs {
+		if g.Exit.Op != "goto" || g.Exit.Leaf != ks || g.From != k || ja >= len(g.Exit.Args) || jb >= len(g.Exit.Args) {
+			continue
+		}
+		ua := g.Exit.Args[ja].Op == "φ" && g.Exit.Args[ja].Leaf == ks+"."+itoa(ja)
+		ub := g.Exit.Args[jb].Op == "φ" && g.Exit.Args[jb].Leaf == ks+"."+itoa(jb)
+		if !ua && !ub {
+			both = true
+		}
+	}
+	if !both {
+		for _, g := range gc.GCs {
+			if g.Exit.Op != "goto" || g.Exit.Leaf != ks || g.From == k {
+				continue
+			}
+			distinct := false
+			for _, at := range g.Guards {
+				s := noEpoch(at)
+				if s == "(!= p:1 p:2)" || s == "(!= p:2 p:1)" || s == "(< p:1 p:2)" || s == "(< p:2 p:1)" {
+					distinct = true
+				}
+			}
+			if !distinct {
+				bad = append(bad, "the pick-while-counting walk is entered without knowing that the two indices differ: with i == j only one element is ever picked and the walk runs off the end of the list")
+			}
+		}
+	}
 	return bad
 }
 
